@@ -15,6 +15,17 @@
 // The reference encoder (refcodec/packs.go) imports nothing from golib; a Go-to-Go round trip
 // is never used. The first differing offset is mapped to the reference field it falls into.
 //
+// Further sections (same oracle, same reference encoder; see the files' headers):
+//
+//	conc.go   "concurrent": 2…16 goroutines send through one client (direct / queue with the
+//	          background drain / SendAndClear beside it, big and small packs) while others
+//	          encode with ToBytesPack — keys …/concurrent; also run under the race detector
+//	hist.go   "history": a pack is sent, mutated through its public mutators, sent again —
+//	          keys …/after-mutation
+//	fault.go  "fault": the peer cuts connections inside frames (also frames larger than the
+//	          2 MiB write buffer) — keys …/at-cut, …/after-reconnect
+//	stream.go the recording peer and the stream oracle (whole reference frames only)
+//
 // Teardown is decided by protocol events: the client connection is closed under the send lock
 // and the peer reads its connection to EOF (TCP delivers everything written before the FIN).
 // A watchdog only ever yields "inconclusive".
@@ -662,6 +673,8 @@ func main() {
 	c.Cases("concurrent", nConc, func(i int, r *vlib.Rand) { runConcurrent(c, fmt.Sprintf("concurrent#%d", i), i, r) })
 	c.Cases("history", nHist, func(i int, r *vlib.Rand) { runHistory(c, fmt.Sprintf("history#%d", i), i, r) })
 	c.Cases("fault", nFault, func(i int, r *vlib.Rand) { runFault(c, fmt.Sprintf("fault#%d", i), i, r) })
+	nBad := c.N(160, 6400)
+	c.Cases("unencodable", nBad, func(i int, r *vlib.Rand) { runUnencodable(c, fmt.Sprintf("unencodable#%d", i), i, r) })
 
 	// observation floors (per shard; ≤ 10 % of what a healthy run reaches)
 	perShard := int64(8*n) / int64(c.NShards)
@@ -674,6 +687,7 @@ func main() {
 		c.Floor("fault_cuts_executed", pf/10, c.Counter("fault_cuts_executed"))
 		c.Floor("fault_reconnections", pf/10, c.Counter("fault_reconnections"))
 		c.Floor("fault_frames_matched", pf, c.Counter("fault_frames_matched"))
+		c.Floor("unencodable_packs_handed_over", int64(nBad)/int64(c.NShards)/4, c.Counter("unencodable_packs_handed_over"))
 		c.Floor("frames_received", perShard*4/10, c.Counter("frames_received"))
 		c.Floor("images_compared", perShard/10, c.Counter("images_compared"))
 		c.Floor("header_long_form", perShard/40, c.Counter("header_long_form"))
